@@ -269,7 +269,8 @@ class Interp:
         if isinstance(seq, SeqMap):
             return self.subst_value(seq.elem, {seq.ivar: idx})
         if isinstance(seq, SeqSorted):
-            return self.elem_value(('sorted', self.abstract(state, seq.seq)), idx, None, state)
+            ety = seq.seq.elem_ty if isinstance(seq.seq, SeqSym) else None
+            return self.elem_value(('sorted', self.abstract(state, seq.seq)), idx, ety, state)
         raise Unsupported('indexing %s' % type(seq).__name__)
 
     def seq_set(self, seq, idx, val):
